@@ -171,6 +171,9 @@ register(PropertySpec(
         Rule("NO-USER-VALUE-MUTATION", history.rule_no_user_value_mutation, 5,
              "no value taken out of a binding (a user object or attribute value) is mutated in place, directly or through "
              "a local container slot that aliases it"),
+        Rule("DUP-STABLE", _lazy("lazy", "rule_dup_stable"), 1,
+             "a domain that lists the same object twice yields it the same number of times on the first pass (pulling) and on "
+             "later passes (memo replay)"),
         Rule("MEMO-ON-PULL", _lazy("lazy", "rule_memo_on_pull"), 3,
              "(shared with C07) an element pulled from a lazily consumed domain is memoised before it is handed out, so "
              "an evaluation abandoned at that element does not lose it for later evaluations"),
@@ -391,6 +394,11 @@ register(PropertySpec(
         Rule("MEMO-ON-PULL", _lazy("lazy", "rule_memo_on_pull"), 3,
              "(shared with C07) the registry is consumed through a memoising iterable: an instance pulled while an "
              "evaluation is abandoned must already be stored or later evaluations of the query miss it"),
+        Rule("ITER-SNAPSHOT", _lazy("lazy", "rule_iter_snapshot"), 1,
+             "the registry store is replayed from a snapshot, so constructing instances while a domain-less variable is "
+             "being iterated (user code, or a rule inferring the type it ranges over) cannot invalidate the iteration"),
+        Rule("REG-AFTER-INIT", registry.rule_reg_after_init, 1,
+             "an instance is registered only once its construction succeeded (not inside __new__, before __init__ ran)"),
         Rule("REG-BRANCH", registry.rule_reg_branch, 2,
              "call-graph closure of the symbolic arm reaches neither the writer nor the allocator; it returns only "
              "expression objects"),
